@@ -369,6 +369,18 @@ func c15Lab(t *testing.T, variant stdVariant, engine string) {
 		expectPinned := true
 		dontCare := false
 		steps := rapid.IntRange(1, 4).Draw(rt, "steps")
+		// the pin lives for 1 s: when the history ran so slowly (loaded or frozen
+		// sandbox) that a probe may have been handled after the pin's timeout,
+		// where the probe went no longer tells anything about termination
+		probeT := probe
+		probe := func(d *c15Dlg, method, extra string) (bool, time.Time, time.Time, error) {
+			stuck, before, after, err := probeT(d, method, extra)
+			if after.Sub(d.pinBefore) > d.life-50*time.Millisecond && !dontCare {
+				dontCare = true
+				V.Class("lab: termination history outlived the pin's timeout (rest is don't-care)")
+			}
+			return stuck, before, after, err
+		}
 		for i := 0; i < steps; i++ {
 			switch rapid.IntRange(0, 3).Draw(rt, "op") {
 			case 0: // BYE answered by the backend with any final status
